@@ -18,6 +18,8 @@ deriving Repr, DecidableEq
 inductive PyErr
   | exc (cls : String)
   | fmt (cls : String) (fmt : String) (args : List PyArg)
+  /-- an exception built with a message computed from the input -/
+  | msg (cls : String) (text : Str)
 deriving Repr, DecidableEq
 
 /-- what `HeadTailLexer.last_elt` is after a call of `handle`: `None`, the token just handled, or what it was -/
